@@ -25,12 +25,14 @@ const ModPath = "github.com/ysugimoto/falco/v2"
 const CanaryPrefix = "zz_fv_canary_"
 
 type Program struct {
-	Repo   string
-	Fset   *token.FileSet
-	Pkgs   []*packages.Package
-	ByPath map[string]*packages.Package // keyed by path relative to the module ("parser", "ast/codec", "" for none)
-	SSA    *ssa.Program
-	SSAPkg map[string]*ssa.Package // same key
+	Repo string
+	Fset *token.FileSet
+	Pkgs []*packages.Package
+	// Queried: the module-relative package prefixes the running check asked functions of (ModuleFuncs)
+	Queried map[string]bool
+	ByPath  map[string]*packages.Package // keyed by path relative to the module ("parser", "ast/codec", "" for none)
+	SSA     *ssa.Program
+	SSAPkg  map[string]*ssa.Package // same key
 
 	parents map[*ast.File]map[ast.Node]ast.Node
 }
